@@ -500,17 +500,13 @@ class ParallelTemperedChain(BaseChain):
 
     def __getitem__(self, index):
         """Returns all of the chain data at the requested index."""
-        out = {'positions': self.positions[index],
-               'stats': self.stats[index],
-               'acceptance': self.acceptance[index]
+        index = index % len(self)
+        out = {'positions': self.positions[..., index],
+               'stats': self.stats[..., index],
+               'acceptance': self.acceptance[..., index]
                }
-        if self.ntemps > 1:
-            out['temperature_swaps'] = \
-                self.temperature_swaps[index//self.swap_interval]
-            out['temperature_acceptance'] = \
-                self.temperature_acceptance[index//self.swap_interval]
-        if self._hasblobs:
-            out['blobs'] = self.blobs[index]
+        if self.hasblobs:
+            out['blobs'] = self.blobs[..., index]
         return out
 
     def step(self):
